@@ -66,6 +66,17 @@ hist_present are false.  The driver runs build / dbuild next to the faithful loo
 which they differ are counted, and "same acceptance, sub-sequence" is a selfcheck.  buildF_full (failing commands) and the
 crash model sit on dirty_now: their graphs get no input-less phony statement; dry_build only scans and is not affected.
 
+PARALLEL SCHEDULES (coq/Engine/HistParDefs.v par_run, theorems in Properties_C01par.v; used by props/c04.py and c01.py):
+plain histories whose builds run with -j 2/3/4/8 (and some -j1) and random completion orders.  The engine's `ev start` /
+`ev finish` events of a build, in the order they happened, ARE the schedule given to the model (`p<targets>@<j>:s<e>/f<e>/..`):
+par_run must answer PDone -- PInvalid means ninja started a command the model's side condition forbids (still wanted, not
+running, job limit, every input of every kind ready) or finished one that was not running; `acc` names the first refused
+event -- and the state it reaches is compared with the engine's by the usual exact rules (the time relations now see
+interleaved start / finish ticks: the recorded mtime is computed from the START tick).  The history goes on from the
+parallel state on the model side.  selfcheck: build_f from the same state accepts likewise, runs the same multiset of
+commands and reaches the same contents (confluence).  Counted: events, the largest number of commands running at once per
+build.  Pools (the console pool too) are kept out: they constrain the schedule in a way the model does not know.
+
 RECORDED DEPENDENCIES (coq/Engine/HistDepsDefs.v dbuild, theorems in Properties_C10hist.v; used by props/c10.py): graphs
 of fragment ABD = AB + statements with deps = gcc whose commands read HIDDEN files (sources, also ones the manifest never
 mentions, and generated files) and report them through a depfile that ninja moves into the deps log.  gen_graph's msvc /
@@ -84,7 +95,7 @@ dirty-edge-deps-not-loaded appear, and they have to appear IDENTICALLY on both s
 such builds are counted by shape.
 
   check(ctx_or_None, seed, n, dry=0.0, fault=False, deps=False) -> (mismatches, stats)     mismatches: list of Mismatch (text, replay)
-  python3 tools/histmodel.py <seed> <n> [--dry P] [--fault] [--deps] [--keep DIR]      standalone
+  python3 tools/histmodel.py <seed> <n> [--dry P] [--fault] [--deps] [--par] [--crash] [--keep DIR]      standalone
 
 Model binary: $HISTMODEL_BIN if set, else hist_run next to vlib.build_model()'s model_run."""
 import os, sys, random, collections, copy, re
@@ -142,17 +153,17 @@ def gcc_only(g):
             e.deps = ''; e.depfile = ''; e.hidden = []
     return g
 
-def gen_history(rnd, sid, outside=False, dry=0.0, fault=False, deps=False):
+def gen_history(rnd, sid, outside=False, dry=0.0, fault=False, deps=False, par=False):
     """dry: probability that a build is preceded by a dry run of the same targets (and of a dry run on its own);
     fault: exactly one build of the history carries faults (-j1 -k1)"""
     feat = dict(FEAT)
     if outside: feat['validations'] = 0.6
     wf_reads = True
     if deps: feat['deps'] = 0.6; wf_reads = rnd.random() < 0.75
-    g = strip_graph(engine.gen_graph(rnd, rnd.randrange(2, 10), feat, wf_reads), rnd, no_inputless_phony=fault)
+    g = strip_graph(engine.gen_graph(rnd, rnd.randrange(3, 13) if par else rnd.randrange(2, 10), feat, wf_reads), rnd, no_inputless_phony=fault)
     if deps: gcc_only(g)
     h = ec.Hist(sid, g)
-    h.deps_mode = bool(deps); h.wf_reads = wf_reads
+    h.deps_mode = bool(deps); h.wf_reads = wf_reads; h.par_mode = bool(par)
     fstate = dict(todo=fault)
     allouts = [o for e in g.edges for o in e.outs]
     used_sources = sorted({i for e in g.edges for i in e.manifest_ins() + e.vals if i in g.sources})
@@ -164,7 +175,7 @@ def gen_history(rnd, sid, outside=False, dry=0.0, fault=False, deps=False):
             # a source can be named as a target when the manifest mentions it (otherwise: "unknown target", a command-line error)
             cand = allouts + (used_sources if rnd.random() < 0.3 else [])
             targets = rnd.sample(cand, rnd.randrange(1, min(3, len(cand)) + 1))
-        j = rnd.choice([1, 1, 2, 3, 4, 8]) if wf_reads else 1; k = rnd.choice([1, 1, 1, 2, 0])
+        j = (rnd.choice([2, 2, 3, 4, 8, 1]) if par else rnd.choice([1, 1, 2, 3, 4, 8])) if wf_reads else 1; k = rnd.choice([1, 1, 1, 2, 0])
         sched = ec.rand_sched(rnd, 2 * len(g.edges) + 2)
         if dry and rnd.random() < dry:
             h.build(rnd, targets, j=1, k=1, sched=sched, dry=1)                   # ninja -n ...
@@ -404,7 +415,8 @@ class Map:
         for e in g.edges:
             for p in e.hidden:
                 if p not in s.names: s.names.append(p)
-        s.deps_mode = bool(getattr(h, 'deps_mode', False))
+        s.deps_mode = bool(getattr(h, 'deps_mode', False)); s.par_mode = bool(getattr(h, 'par_mode', False))
+        s.trace = list(ec.pair(h, builds)) if builds else []
         s.mode = 'histd' if s.deps_mode else 'hist'
         s.by_out0 = {e.out0: k for k, e in enumerate(g.edges)}      # out0 -> position
         s.cid = {}                                                   # content string -> number
@@ -478,8 +490,9 @@ class Map:
                                str(s.hash_of(pos, e))]))
         S = []
         for n, c in sorted(g.sources.items()): S.append('e%d:%d' % (ID[n], s.content(c)))      # the files of the scenario header
-        cur = dict(g.sources); nf = 0
+        cur = dict(g.sources); nf = 0; nb = -1
         for st in h.steps:
+            if st.kind == 'build': nb += 1
             if st.kind == 'edit':
                 c = st.line.split()[3]; c = engine.uh(c); cur[st.path] = c
                 S.append('e%d:%d' % (ID[st.path], s.content(c)))
@@ -507,6 +520,11 @@ class Map:
                 elif k == 'intr':
                     if s.intr is None or s.intr[0] == 'skip': S.append('b' + t)
                     else: nf += 1; S.append('i%s@%d:%d:%d' % (t, s.num[s.intr[0]], s.intr[1], GARBAGE_BASE + 1000 * nf))
+                elif s.par_mode and nb < len(s.trace):
+                    # the schedule the engine took: its start / finish events in the order they happened
+                    evs = ['%s%d' % (ev[0][0], s.num[s.by_out0[ev[1]]]) for ev in s.trace[nb][1].events
+                           if ev[0] in ('start', 'finish') and ev[1] in s.by_out0]
+                    S.append('p%s@%d:%s' % (t, st.opts.get('j', 1), '/'.join(evs) or '-'))
                 else: S.append('b' + t)
             else:
                 raise ValueError('step kind %s is outside the model' % st.kind)
@@ -540,10 +558,12 @@ def parse_model(out, m):
                                  None if f[3] == '-' else (int(f[3], 16), int(f[4])), dp)
         raw = kv.get('run', kv.get('list', '-'))
         raw = [] if raw == '-' else [int(x) for x in raw.split('+')]
+        bf = kv.get('bf'); bf = None if bf is None else ([] if bf == '-' else [m.order[int(x)] for x in bf.split('+')])
         old = kv.get('old'); old = None if old is None else ([] if old == '-' else [m.order[int(x)] for x in old.split('+')])
         builds.append(dict(what=bl.split()[0], ok=kv['ok'] == '1', raw=raw, run=[m.order[x] for x in raw], nodes=nodes, old=old, oldok=kv.get('oldok', kv['ok']) == '1',
                            ts=kv.get('ts', '1') == '1', tss=kv.get('tss', kv.get('ts', '1')) == '1', failed=kv.get('failed') == '1',
                            hit=kv.get('hit') == '1', exit=int(kv['exit']) if 'exit' in kv else None,
+                           res=kv.get('res'), acc=int(kv['acc']) if 'acc' in kv else None, bf=bf, bfok=kv.get('bfok') == '1', conf=kv.get('conf') == '1',
                            fe=None if kv.get('fe', '-') == '-' else m.order[int(kv['fe'])]))
     r['builds'] = builds
     return r
@@ -578,7 +598,7 @@ def compare_build(h, m, st, b, mb, prev_ok_same, nip, cnt, prev=None, flags=None
     rewriting its outputs)"""
     g = st.g; prod = g.producer(); bad = []; flags = flags if flags is not None else {}
     kind = kind or step_kind(st)
-    want = {'plain': 'B', 'dry': 'N', 'fault': 'F', 'kill': 'K', 'intr': 'I'}[kind]
+    want = {'plain': 'P' if m.par_mode else 'B', 'dry': 'N', 'fault': 'F', 'kill': 'K', 'intr': 'I'}[kind]
     if mb['what'] != want: return [('mapping', 'engine step is %s, model step is %s' % (want, mb['what']))]
     nm = lambda l: [g.edges[k].out0 for k in l]
     e_started = list(b.started)
@@ -645,7 +665,26 @@ def compare_build(h, m, st, b, mb, prev_ok_same, nip, cnt, prev=None, flags=None
                 for p in through_phony(g, prod, i):
                     if p.out0 in sta and p is not e and not (p.out0 in fin and fin[p.out0] < sta[o]):
                         bad.append(('order', '%s started before %s (producer of its input %s) finished successfully' % (o, p.out0, i)))
-    if mb['raw'] != sorted(mb['raw']): bad.append(('selfcheck', 'model trace/listing not in statement order: %s' % mb['raw']))
+    if mb['what'] != 'P' and mb['raw'] != sorted(mb['raw']): bad.append(('selfcheck', 'model trace/listing not in statement order: %s' % mb['raw']))
+    if mb['what'] == 'P':
+        evs = [ev for ev in b.events if ev[0] in ('start', 'finish') and ev[1] in m.by_out0]
+        cnt['schedule events given to the model'] += len(evs)
+        running = 0; mx = 0
+        for ev in evs:
+            running += 1 if ev[0] == 'start' else -1; mx = max(mx, running)
+        cnt['builds with at most %d command%s running at once' % (mx, '' if mx == 1 else 's')] += 1
+        if mx >= 2: cnt['builds with at least two commands running at the same time'] += 1
+        if mb['res'] not in ('done', 'refused'):
+            cnt['schedules of the engine the model does not accept (%s)' % mb['res']] += 1
+            x = evs[mb['acc']] if mb['acc'] is not None and mb['acc'] < len(evs) else None
+            bad.append(('schedule', 'par_run says %s for ninja\'s -j%s schedule: %d of %d events accepted, the first refused one is %s; schedule %s' % (
+                mb['res'], st.opts.get('j'), mb['acc'], len(evs), '%s %s' % (x[0], x[1]) if x else 'none (the schedule ends early)',
+                ' '.join('%s:%s' % (ev[0][0], ev[1]) for ev in evs)[:300])))
+        else:
+            # confluence against the sequential faithful loop from the same state (HistParProofs)
+            if mb['bfok'] != mb['ok']: bad.append(('selfcheck', 'model: par_run %s, build_f ok=%s from the same state' % (mb['res'], mb['bfok'])))
+            if sorted(mb['bf']) != sorted(mb['run']): bad.append(('selfcheck', 'model: the schedule ran %s, build_f runs %s' % (sorted(mb['run']), sorted(mb['bf']))))
+            if not mb['conf']: bad.append(('selfcheck', 'model: the contents after the schedule differ from those after build_f'))
     if mb.get('old') is not None:
         # HistDefs.build / HistDepsDefs.dbuild from the same state: same acceptance, and the faithful loop runs a sub-sequence
         # (HistFaithfulProofs.build_f_trace_subset); they differ where dirty_now's re-scan re-runs what CleanNode prunes
@@ -775,7 +814,7 @@ def compare_build(h, m, st, b, mb, prev_ok_same, nip, cnt, prev=None, flags=None
         if e_started or b.exit != 0: bad.append(('idle', 'engine: the build repeated after an accepted one started %s exit=%s' % (e_started, b.exit)))
     return bad
 
-def check(ctx, seed, n, keep=None, dry=0.0, fault=False, deps=False):
+def check(ctx, seed, n, keep=None, dry=0.0, fault=False, deps=False, par=False):
     """n random histories inside the fragment through the real engine and through the extracted model.
     dry: probability of dry runs before builds; fault: every history has one failing invocation; deps: fragment ABD
     (deps = gcc statements with hidden reads), the recorded-deps model.
@@ -783,7 +822,7 @@ def check(ctx, seed, n, keep=None, dry=0.0, fault=False, deps=False):
     rnd = random.Random(seed * 1000003 + 4242)
     hists = []
     for i in range(n):
-        hists.append(gen_history(rnd, 'HIST_%d_%d' % (seed, i), outside=rnd.random() < OUTSIDE_RATE, dry=dry, fault=fault, deps=deps))
+        hists.append(gen_history(rnd, 'HIST_%d_%d' % (seed, i), outside=rnd.random() < OUTSIDE_RATE, dry=dry, fault=fault, deps=deps, par=par))
     return compare_hists(hists, keep)
 
 def compare_hists(hists, keep=None):
@@ -938,7 +977,7 @@ def finish_proof_check(ctx, handle):
     ctx.proof['theorems'] = ctx.proof.get('theorems', []) + names
     ctx.proof['print_assumptions'] = ctx.proof['print_assumptions'] + ['%s: %d theorems closed under the global context' % (HISTRUN_V, closed)]
 
-def hook(ctx, pid, dry=0.0, fault=False, deps=False, quick=400, thorough=5000, key='hist_model'):
+def hook(ctx, pid, dry=0.0, fault=False, deps=False, par=False, quick=400, thorough=5000, key='hist_model'):
     """called by props/c01.py, c02.py (plain histories), c19.py (dry=..: dry runs interleaved), c05.py (fault=True: one
     failing invocation per history), c10.py (deps=True: fragment ABD, the recorded-deps model) after the property's own runs"""
     if not ctx.model: return         # the model did not build: already reported as a broken obligation
@@ -954,14 +993,14 @@ def hook(ctx, pid, dry=0.0, fault=False, deps=False, quick=400, thorough=5000, k
         return
     handle = start_proof_check(ctx)
     n = quick if ctx.quick() else thorough
-    mism, stats = check(ctx, ctx.seed * 31 + int(pid[1:]), n, dry=dry, fault=fault, deps=deps)
+    mism, stats = check(ctx, ctx.seed * 31 + int(pid[1:]) + (500 if par else 0), n, dry=dry, fault=fault, deps=deps, par=par)
     finish_proof_check(ctx, handle)
     for x in mism[:5]:
         ctx.corr_broken.append('history model (HistDefs) differs from ninja in scenario %s [%s]: %s' % (x.sid, x.kind, x.text[:600]))
         ctx.replay_file('hist-mismatch', x.replay)
     if len(mism) > 5: ctx.corr_broken.append('history model (HistDefs): %d more mismatching histories' % (len(mism) - 5))
-    ctx.cov['hist_model_correspondence'] = stats
-    extra = [k for k in stats if k.startswith(('dry runs', 'failing builds', 'commands listed', 'successful builds', '... where', 'histories whose statements', 'builds where HistDefs', '... statements',
+    ctx.cov['hist_model_correspondence' + ('_parallel' if par else '')] = stats
+    extra = [k for k in stats if k.startswith(('dry runs', 'failing builds', 'commands listed', 'successful builds', '... where', 'histories whose statements', 'builds where HistDefs', '... statements', 'schedule', 'builds with at',
                                                'deps records', 'inside, ', 'histories cut short', 'histories with a deps'))]
     ctx.cov.setdefault('distribution', {})[key] = {k: stats.get(k, 0) for k in extra + [
         'histories', 'inside the fragment', 'outside the fragment (model verdict)',
@@ -1021,7 +1060,7 @@ if __name__ == '__main__':
         for k in sorted(stats): print('%-60s %s' % (k, stats[k]))
         for x in mism[:10]: print('MISMATCH', x)
         print('%d bases, %d mismatching, %.1fs' % (n, len(mism), time.time() - t0)); sys.exit(1 if mism else 0)
-    mism, stats = check(None, seed, n, keep=keep, dry=dry, fault='--fault' in a, deps='--deps' in a)
+    mism, stats = check(None, seed, n, keep=keep, dry=dry, fault='--fault' in a, deps='--deps' in a, par='--par' in a)
     for k in sorted(stats): print('%-60s %s' % (k, stats[k]))
     for x in mism[:10]:
         print('MISMATCH', x)
